@@ -181,7 +181,7 @@ def rule_E3(ctx, R):
             continue
         ti = f.get("trait_item") or ""
         if "TRY" in R.roles(f) or ti in ("lockable::RawLock::raw_try_write", "lockable::RawLock::raw_try_read") \
-                or (f["path"].startswith("collection::utils::ordered_try_")):
+                or (ctx.A.role_of(f["path"]) in ("ordered_try_write", "ordered_try_read")):
             fns.append(f)
     # helper functions returning bool that are built from HL tries count too (discovered, not named)
     for f in fns:
@@ -200,7 +200,7 @@ def rule_K2(ctx, R):
     F = ctx.F
     cg = cg_of(ctx)
     from facts import ty_walk
-    KC = "key::KeyCell"
+    KC = ctx.A.keycell or "key::KeyCell"
     stat = [s for s in F.statics if any(x["k"] == "adt" and x["path"] == KC for x in ty_walk(s["ty"]))]
     # thread_local! expands to a const LocalKey plus an inner #[thread_local] static / lazy storage
     tl = [s for s in F.statics if any(x["k"] == "adt" and x["path"] == KC for x in ty_walk(s["ty"])) and
